@@ -28,12 +28,12 @@ CONSTANTS Kinds,        \* font kinds explored: subset of FontKinds below
           NameMemo,     \* TRUE: the library remembers that it already looked for the name table (repair of F6)
           Emit
 
-FontKinds == {"good", "noname", "badlabel", "badglyph", "compressed", "awami", "badsilf", "nocmap", "nogloc", "badlz4", "badlz4s"}
+FontKinds == {"good", "noname", "badlabel", "badglyph", "compressed", "awami", "badsilf", "nocmap", "nogloc", "badlz4", "badlz4s", "hiddenfeat"}
 PreloadGlyphs(o) == (o \div 2) % 2 = 1
 CacheCmap(o)     == (o \div 4) % 2 = 1
 PreloadAll(o)    == PreloadGlyphs(o) /\ CacheCmap(o)
 \* a font with one unloadable glyph is refused only when all glyphs are loaded up front
-Loads(k, o) == k \in {"good", "noname", "badlabel", "compressed", "awami"} \/ (k = "badglyph" /\ ~PreloadGlyphs(o))
+Loads(k, o) == k \in {"good", "noname", "badlabel", "compressed", "awami", "hiddenfeat"} \/ (k = "badglyph" /\ ~PreloadGlyphs(o))
 OnDisk(k) == k \in {"good", "compressed", "awami"}
 HasName(k) == k # "noname"
 
